@@ -448,6 +448,8 @@ pub fn set_peer_params_native(mups: u32) -> u32 {
         None => 1234,
     };
     assert!(conn.idle_timeout == Some(Duration::from_millis(want_idle)), "idle timeout not negotiated against the peer's value");
+    // the estimate never falls below the smaller of the minimum MTU and the peer's limit
+    assert!(conn.path.mtud.current_mtu() as u32 >= mups.min(1200), "MTU estimate {} fell below min(min_mtu, peer limit {})", conn.path.mtud.current_mtu(), mups);
     // no probe may exceed the peer's limit
     let cap = mups.min(65535) as u16;
     let probe = conn.path.mtud.poll_transmit(crate::verif::mk_instant(60, 0).unwrap(), 0);
